@@ -14,7 +14,7 @@ MONITORS = ["tokenise", "theory"]
 ALSO = ()
 INSITU = {"k": "tokenisation"}
 TECHNIQUE = "runtime monitoring: differential observer between get_info and prefix-wise detokenise of the same real tokeniser, over random vocabulary streams and tokenise output"
-RULE = ("(a) random streams of 1-80 tokens over each configuration's full vocabulary (bar tokens in partly filled bars, signature "
+RULE = ("(a) random streams of 1-80 tokens over each configuration's full vocabulary (bar tokens in partly filled bars, rests overshooting the bar capacity, signature "
         "tokens mid-bar, unfused running values, pad/start/stop), (b) streams produced by tokenise from valid pieces; both "
         "imputation settings; all 16 flag combinations. Checked per stream: one annotation per token, positions 0..n-1, and per "
         "note token: annotated time = onset at which detokenise places the note (found by prefix differencing), pitch, "
@@ -23,7 +23,7 @@ RULE = ("(a) random streams of 1-80 tokens over each configuration's full vocabu
 PLAN = {"quick": {"cases": 1200, "jobs": 4, "timeout": 900},
         "thorough": {"cases": 60000, "jobs": 16, "timeout": 3000, "budget_s": 420}}
 FLOORS = {"quick": {"c19.note_tokens_checked": 10000, "#c19.flags.": 16, "c19.tokenise_streams": 300, "c19.random_streams": 600,
-                    "c19.midbar_signature_token": 150, "c19.bar_token_in_partly_filled_bar": 150},
+                    "c19.midbar_signature_token": 150, "c19.bar_token_in_partly_filled_bar": 150, "c19.bar_token_after_overshooting_rests": 12},
           "thorough": {"c19.note_tokens_checked": 500000, "#c19.flags.": 16}}
 
 
@@ -40,6 +40,7 @@ def make_case(rng, i, tier):
         case["stream_seed"] = rng.randrange(10 ** 9)
         case["length"] = rng.randint(1, 80)
         case["p_note"] = rng.choice([0.3, 0.5, 0.7])
+        case["rest_heavy"] = rng.random() < 0.35     # rests overshooting the bar capacity before a bar token
     return case
 
 
@@ -74,7 +75,9 @@ def run(case, ctx):
         vocab = list(tok.dictionary)
         notes_t = [t for t in vocab if "pit" in t]
         other = [t for t in vocab if "pit" not in t]
-        stream = [rnd.choice(notes_t) if rnd.random() < case["p_note"] else rnd.choice(other) for _ in range(case["length"])]
+        rests = [t for t in other if t.startswith("rst")]
+        pick_other = (lambda: rnd.choice(rests) if rnd.random() < 0.6 else rnd.choice(other)) if case.get("rest_heavy") else (lambda: rnd.choice(other))
+        stream = [rnd.choice(notes_t) if rnd.random() < case["p_note"] else pick_other() for _ in range(case["length"])]
         LOG.n("c19.random_streams")
     if len(stream) > 160:
         stream = stream[:160]
@@ -130,13 +133,18 @@ def run(case, ctx):
         # mechanism counters (measured on the stream, independent of the library): a bar token while the bar is partly
         # filled, a signature token while the bar is partly filled
         filled = 0
+        ticks = 0
         for t in stream:
             if t.startswith("rst"):
                 filled += 1
+                ticks += int(t.split("_")[1])
             elif t == "bar":
                 if filled:
                     LOG.n("c19.bar_token_in_partly_filled_bar")
+                if ticks > 96:
+                    LOG.n("c19.bar_token_after_overshooting_rests")
                 filled = 0
+                ticks = 0
             elif t.startswith("tsg") and filled:
                 LOG.n("c19.midbar_signature_token")
     return {"nontrivial": interesting, "fails": fails[:5],
